@@ -13,7 +13,7 @@ RULE = ("float16: every finite value against its k-th neighbours (k in 1,2,3,5,8
         "ulp() on every bit pattern; random/hostile pairs and monotone triples in float16/32/64; both flush modes; complex and array forms. "
         "distinct_nontrivial = distinct (dtype, law, sign-relation, magnitude-class pair, flush) tuples with x != y")
 ASSUME = ["numpy.nextafter and numpy bit views define the lattice"]
-REQUIRE = ["evaluations", "contract:utils.diff_ulp:evaluated", "contract:utils.ulp:evaluated", "law:neighbour", "law:additive", "law:flush", "law:complex", "law:ulp-identity"]
+REQUIRE = ["evaluations", "contract:utils.diff_ulp:evaluated", "contract:utils.ulp:evaluated", "law:neighbour", "law:additive", "law:flush", "law:complex", "law:complex-flush", "law:default-switch", "law:ulp-identity"]
 
 
 def EXHAUSTIVE(tier):
@@ -182,8 +182,29 @@ def task_pairs(params, rec):
             rec.count("law:complex")
             if dc != e:
                 rec.violation("complex-max", dict(dtype=cdt.__name__, z1=z1, z2=z2, got=int(dc), expected=int(e)))
+            # the same law with flushing enabled: both components in flush mode (the scalar flush distance is judged by the consistency law below)
+            dcf = utils.diff_ulp(z1, z2, flush_subnormals=True)
+            ef_ = max(int(utils.diff_ulp(x, y, flush_subnormals=True)), int(utils.diff_ulp(z, x, flush_subnormals=True)))
+            rec.count("law:complex-flush")
+            if dcf != ef_:
+                rec.violation("complex-max-flush", dict(dtype=cdt.__name__, z1=z1, z2=z2, got=int(dcf), expected=int(ef_)))
         elif cdt is None:
             rec.count("law:complex", 0)
+        if j % 8 == 1 and hasattr(utils, "default_flush_subnormals"):
+            # "flushing enabled" through the module-level switch: an unspecified mode follows the switch as it is at call time
+            saved = utils.default_flush_subnormals
+            try:
+                for mode in (True, False):
+                    utils.default_flush_subnormals = mode
+                    got_ = int(utils.diff_ulp(x, y))
+                    want_ = int(utils.diff_ulp(x, y, flush_subnormals=mode))
+                    rec.count("law:default-switch")
+                    if got_ != want_:
+                        rec.violation("default-flush-switch", w2(x, y, switch=mode, got=got_, expected=want_))
+                    if utils.diff_log2ulp(x, y) != utils.diff_log2ulp(x, y, flush_subnormals=mode):
+                        rec.violation("default-flush-switch", w2(x, y, switch=mode, function="diff_log2ulp"))
+            finally:
+                utils.default_flush_subnormals = saved
         if j % 16 == 0:
             arr = utils.diff_ulp(numpy.array([x, y, z]), numpy.array([y, z, x]), flush_subnormals=False)
             exp_ = [exact.ulp_distance(x, y), exact.ulp_distance(y, z), exact.ulp_distance(z, x)]
